@@ -56,14 +56,14 @@ func KeyByAddr(addr []byte) *Key {
 // nopLogger implements log.Logger without output.
 type nopLogger struct{}
 
-func (nopLogger) Debug(string, ...interface{})    {}
-func (nopLogger) Info(string, ...interface{})     {}
-func (nopLogger) Error(string, ...interface{})    {}
-func (nopLogger) Debugf(string, ...interface{})   {}
-func (nopLogger) Infof(string, ...interface{})    {}
-func (nopLogger) Errorf(string, ...interface{})   {}
-func (nopLogger) Warning(string, ...interface{})  {}
-func (nopLogger) Warningf(string, ...interface{}) {}
+func (nopLogger) Debug(string, ...interface{})     {}
+func (nopLogger) Info(string, ...interface{})      {}
+func (nopLogger) Error(string, ...interface{})     {}
+func (nopLogger) Debugf(string, ...interface{})    {}
+func (nopLogger) Infof(string, ...interface{})     {}
+func (nopLogger) Errorf(string, ...interface{})    {}
+func (nopLogger) Warning(string, ...interface{})   {}
+func (nopLogger) Warningf(string, ...interface{})  {}
 func (n nopLogger) With(...interface{}) log.Logger { return n }
 
 // NopLogger returns a silent log.Logger.
